@@ -548,6 +548,17 @@ func c10catcher(o *out, id, G, M, procs int, allNonNil bool, seed uint64) {
 				}
 			}()
 			<-start
+			if p%2 == 1 {
+				// every other producer hands its errors over in batches (Extend keeps the non-nil ones, like Add)
+				for s := 0; s < M; s += 3 {
+					e := s + 3
+					if e > M {
+						e = M
+					}
+					c.Extend(errsIn[p][s:e])
+				}
+				return
+			}
 			for s := 0; s < M; s++ {
 				c.Add(errsIn[p][s])
 			}
